@@ -1420,6 +1420,13 @@ class Component(SupportComplexDataType, CanBeVaries):
 
         self._attach_to_parents()
 
+    def find_child_reference(self, name):
+        element = super(Component, self).find_child_reference(name)
+        if is_base_datatype(self.datatype, self.version):
+            # a component of a base datatype has no table of children: the name found is the one of another element's child
+            raise ChildNotValid(name, self)
+        return element
+
     def add_subcomponent(self, name):
         """
         Create an instance of :class:`SubComponent <hl7apy.core.SubComponent>` having the given name
